@@ -1,7 +1,7 @@
 // Witness for finding F19 (property C08): gtab.Info.Encode stores the offsets
 // of the feature list and of the lookup list in 16 bits without checking that
 // they fit.  One feature that references 33000 lookups makes the feature list
-// 66012 bytes long; the lookup list offset 66022 is written as 486 and the
+// 66012 bytes long; the lookup list offset is written modulo 65536 and the
 // table no longer decodes to what was encoded.
 //
 // Run: copy into /repo/opentype/gtab and `go test -run TestF19 .`.
@@ -11,12 +11,15 @@ import (
 	"bytes"
 	"testing"
 
+	"golang.org/x/text/language"
+
 	"seehuhn.de/go/sfnt/opentype/coverage"
 )
 
 func TestF19GtabOffsetTruncation(t *testing.T) {
 	lookups := make([]LookupIndex, 33000)
 	info := &Info{
+		ScriptList:  ScriptListInfo{language.MustParse("und-Latn"): {Required: 0xFFFF, Optional: []FeatureIndex{0}}},
 		FeatureList: FeatureListInfo{{Tag: "liga", Lookups: lookups}},
 		LookupList: LookupList{{
 			Meta:      &LookupMetaInfo{LookupType: 1},
@@ -33,7 +36,7 @@ func TestF19GtabOffsetTruncation(t *testing.T) {
 	if err != nil {
 		t.Fatalf("Encode succeeded but the table does not decode: %v", err)
 	}
-	if len(back.LookupList) != 1 {
-		t.Fatalf("wrote 1 lookup, read back %d", len(back.LookupList))
+	if len(back.LookupList) != 1 || len(back.FeatureList) != 1 || len(back.FeatureList[0].Lookups) != 33000 {
+		t.Fatalf("wrote 1 lookup and 1 feature with 33000 lookup indices, read back %d lookups, %d features", len(back.LookupList), len(back.FeatureList))
 	}
 }
